@@ -476,6 +476,11 @@ class Concatenator(Group):  # pylint: disable=too-many-public-methods
             if child not in self._children:
                 continue
 
+            if not isinstance(child, (Concatenated, ConcatenatedPropertyGroup)):
+                # Regular children (e.g. comments) are linked under the group
+                super().remove_children([child])
+                continue
+
             self.remove_entity(child)
 
     def remove_entity(self, entity: Concatenated | ConcatenatedPropertyGroup):
